@@ -29,7 +29,7 @@ RULE = (
 ASSUMPTIONS = [
     "quadrature: midpoint rule on a sinh-stretched grid, n and n/2 points; a case fails iff |I-1| > max(1e-6, 10*|I_n - I_n/2|) (2-D: 1e-4 floor; discontinuous uniform densities: 5e-2)",
     "sampling clause replaced by its deterministic push-forward form: with the m mid-quantiles of N(0,1) (resp. U(0,1)) injected as noise, the k-th sample must sit at the (k+1/2)/m quantile of the density; torch.randn/rand themselves are trusted",
-    "the MADE mixture's sampler (Categorical + randn) is only checked for shape/finite values (C18); its distributional clause is not decided here",
+    "the MADE mixture's sampler is decided as a push-forward only for one component and one feature (float32 sampler, tolerance 1e-3); with several components (Categorical draw) only shape/finite values are checked (C18)",
 ]
 
 M = 32  # lattice size
@@ -287,6 +287,45 @@ def mog_case(cfg, pname, rows, seed, tier):
             return obj.log_prob(X, context=cc)
 
         out += check_density("MADEMoG cfg=%s pattern=%s context row %d" % (cfg, pname, r), lp_row, D, 80.0, tier, floor1=1e-6, floor2=2e-4)
+    # sampling, decided where it is an exact push-forward: one mixture component, first feature (its conditional is the marginal)
+    if cfg["components"] == 1 and not out:
+        z = torch.tensor([norm_ppf((k + 0.5) / M) for k in range(M)], dtype=torch.float32)
+        calls = {"n": 0}
+
+        def fake_randn(*size, **kw):
+            n = size[0] if not isinstance(size[0], (tuple, list, torch.Size)) else size[0][0]
+            calls["n"] += 1
+            return z.repeat(n // M) if n % M == 0 else torch.zeros(n)
+
+        try:
+            o32 = DC.materialise(d, cfg, pname, seed, dtype=torch.float32)
+            c32 = None if ctx is None else ctx.float()
+            with mock.patch.object(torch, "randn", fake_randn), torch.no_grad():
+                s = o32.sample(M, context=c32)
+            s = s.reshape(nrows, M, D).double()
+            for r in range(nrows):
+                c = None if ctx is None else ctx[r : r + 1]
+                xs = np.sort(s[r, :, 0].numpy())
+
+                def lp1(t, c=c):
+                    # marginal of the first feature: integrate the later features out by using D=1 models only, or the first conditional
+                    X = torch.zeros(t.shape[0], D, dtype=torch.float64)
+                    X[:, 0] = t
+                    cc = None if c is None else c.expand(t.shape[0], -1)
+                    if D == 1:
+                        return obj.log_prob(X, context=cc)
+                    return None
+
+                if D != 1:
+                    break
+                F, tot = cdf_1d(lp1, xs, xmax=80.0)
+                target = (np.arange(M) + 0.5) / M
+                err = float(np.max(np.abs(F / tot - target)))
+                if err > 1e-3:
+                    out.append(("sample", "samples do not follow the density", "MADEMoG cfg=%s context row %d: with the %d normal mid-quantiles injected, the sorted samples sit at CDF values off by %.3g" % (cfg, r, M, err)))
+                    break
+        except Exception as e:
+            out.append(("sample", "sample raises %s" % type(e).__name__, "MADEMoG cfg=%s: sample(%d): %s: %s" % (cfg, M, type(e).__name__, str(e)[:100])))
     return out, nrows
 
 
